@@ -53,6 +53,10 @@ Lemma gen_keys_distinct :
   gen_key_subdomain = "skfem:s:"%string /\ gen_key_boundary = "skfem:b:"%string.
 Proof. repeat split. Qed.
 
+(* the decoder splits a key at the first two ':' only *)
+Lemma gen_parse_key_is_model : gen_parse_key = parse_key2.
+Proof. reflexivity. Qed.
+
 (* ---- npz key scheme: every boundary / subdomain name comes back, nothing else does, and a boundary is read back
    as oriented exactly when its orientation flags were written *)
 Lemma npz_keys_roundtrip : forall (bn sn on : list string),
